@@ -51,6 +51,18 @@ def reject_batch(I, st, items):
     """items: list of (needle expr, region, a, b): bytes [a, b) of region differ from needle"""
     s = st.store
     progress = True
+    ps = st.ghost.get('pairspec')
+    sr = st.ghost.get('search')
+    if ps and sr:
+        # a stretch of bytes free of pair byte k rejects the candidate positions k's offset earlier
+        extra = []
+        for (n, r, a, b) in items:
+            if r == sr['region']:
+                if s.entails_eq(n - ps['b1']):
+                    extra.append((ps['sym'], r, a - ps['i1'], b - ps['i1']))
+                if s.entails_eq(n - ps['b2']):
+                    extra.append((ps['sym'], r, a - ps['i2'], b - ps['i2']))
+        items = list(items) + extra
     # intervals that could not be placed yet (they arrived before the piece that connects them)
     pending = list(items) + list(st.ghost.get('pend', ()))
     while progress and pending:
@@ -59,6 +71,10 @@ def reject_batch(I, st, items):
         for (n, r, a, b) in pending:
             used = False
             k, v = _find(st, 'hi', r, n)
+            if k is not None and ps and sr and s.nf(n) == s.nf(ps['sym']) and not s.entails_le(a - v.off) \
+                    and s.entails_le(a - sr['start']) and s.entails_le(v.off - sr['start']):
+                # candidate positions before the start of the haystack cannot hold the needle: hi is at least start
+                v = PtrV(r, sr['start'])
             if k is not None and s.entails_le(a - v.off):            # a <= hi : no gap
                 if s.entails_le(v.off - b):                           # b >= hi : advance
                     if s.nf(v.off) != s.nf(b):
@@ -94,6 +110,28 @@ def reject_batch(I, st, items):
                 rest.append((n, r, a, b))
         pending = rest
     st.ghost['pend'] = tuple(pending[-8:])
+    normalise(I, st)
+
+
+BIG = 1 << 63          # larger than any slice length (isize::MAX)
+
+
+def normalise(I, st):
+    """pair prefilters: candidate positions before the haystack start or after the last position at which
+    the needle still fits cannot hold the needle, so the rejected prefix may be extended over them:
+    hi <= start  =>  hi := start;   hi >= end  =>  hi := "infinity" """
+    ps, sr = st.ghost.get('pairspec'), st.ghost.get('search')
+    if not ps or not sr:
+        return
+    s = st.store
+    k, v = _find(st, 'hi', sr['region'], ps['sym'])
+    if k is None or not isinstance(v, PtrV):
+        return
+    if s.entails_le(sr['end'] - v.off):
+        if s.nf(v.off) != C(BIG):
+            st.heap[k] = PtrV(v.r, C(BIG))
+    elif s.entails_le(v.off - sr['start']) and not s.entails_eq(v.off - sr['start']):
+        st.heap[k] = PtrV(v.r, sr['start'])
 
 
 # ----------------------------------------------------------------------------- counting measure
@@ -173,6 +211,27 @@ def cmpeq_leaf(t):
     return None
 
 
+def pair_leaf(st, t):
+    """('and', cmpeq(splat b1, load(r, o1, sz)), cmpeq(splat b2, load(r, o2, sz))) for the pair of the
+    installed pair specification, both loads relative to the same candidate position:
+    -> (pair pseudo-needle, r, position = o1 - index1, sz) or None"""
+    ps = st.ghost.get('pairspec')
+    if not ps or not (isinstance(t, tuple) and len(t) == 3 and t[0] in ('and', 'mand')):
+        return None
+    l1, l2 = cmpeq_leaf(t[1]), cmpeq_leaf(t[2])
+    if l1 is None or l2 is None or l1[1] != l2[1] or l1[3] != l2[3]:
+        return None
+    s = st.store
+    for x, y in ((l1, l2), (l2, l1)):
+        if s.entails_eq(x[0] - ps['b1']) and s.entails_eq(y[0] - ps['b2']) and s.entails_eq((x[2] - ps['i1']) - (y[2] - ps['i2'])):
+            return (ps['sym'], x[1], x[2] - ps['i1'], x[3])
+    return None
+
+
+def leaf_info(st, t):
+    return cmpeq_leaf(t) or pair_leaf(st, t)
+
+
 def swar_leaf(t, K):
     """('xor', ('lin', K*n), ('load', r, off, W)) -> (n, r, off, W) or None"""
     if isinstance(t, tuple) and len(t) == 3 and t[0] == 'xor':
@@ -190,7 +249,7 @@ def on_nz_false(I, st, leaves):
     """the or-tree with these leaves has no lane set"""
     items = []
     for lf in leaves:
-        c = cmpeq_leaf(lf)
+        c = leaf_info(st, lf)
         if c:
             n, r, off, size = c
             items.append((n, r, off, off + size))
@@ -229,9 +288,19 @@ def on_ne(I, st, e):
 
 
 def byte_equals_needle(I, st, region, off, needles):
-    """is `byte(region, off) == n` entailed for some needle n?"""
+    """is `byte(region, off) == n` entailed for some needle n?  (for the pair pseudo-needle: both pair
+    bytes at their offsets from the candidate position `off`)"""
+    ps = st.ghost.get('pairspec')
+    if ps and any(st.store.nf(n) == st.store.nf(ps['sym']) for n in needles):
+        return (byte_equals_needle(I, st, region, off + ps['i1'], [ps['b1']])
+                and byte_equals_needle(I, st, region, off + ps['i2'], [ps['b2']]))
     key = ('byte', region, st.store.nf(off))
     s_ = st.ghost.get('bytes', {}).get(key)
+    if s_ is None:
+        for (_, r2, o2), sym2 in st.ghost.get('bytes', {}).items():
+            if r2 == region and st.store.entails_eq(o2 - off):
+                s_ = sym2
+                break
     if s_ is None:
         return False
     for n in needles:
@@ -251,7 +320,7 @@ def mask_leaves(t):
     return nz_leaves(t)
 
 
-def check_search_post(I, inst, results, mode, ret_kind, index_base=None):
+def check_search_post(I, inst, results, mode, ret_kind, index_base=None, range_check=True, match_check=True):
     """mode 'fwd' | 'rev';  ret_kind 'ptr' | 'index' (index relative to index_base offset)"""
     fr = _Fr(inst)
     loc = inst.loc
@@ -296,8 +365,9 @@ def check_search_post(I, inst, results, mode, ret_kind, index_base=None):
                 continue
             p = index_base + x.e
         in_range = s.entails_le(start - p) and s.entails_le(p + 1 - end)
-        I.ob('POST-RANGE', fr, loc, f'{tag}: Some(p) => start <= p < end', in_range,
-             '' if in_range else f"p = {s.nf(p)}, start = {s.nf(start)}, end = {s.nf(end)}")
+        if range_check:
+            I.ob('POST-RANGE', fr, loc, f'{tag}: Some(p) => start <= p < end', in_range,
+                 '' if in_range else f"p = {s.nf(p)}, start = {s.nf(start)}, end = {s.nf(end)}")
         # find the lane decomposition p = q + lane
         pn = s.nf(p)
         lanes = st.ghost.get('lanes', {})
@@ -310,7 +380,7 @@ def check_search_post(I, inst, results, mode, ret_kind, index_base=None):
             name, mterm = lanes[lane_sym]
             q = pn - V(lane_sym)
             want = 'first_offset' if mode == 'fwd' else 'last_offset'
-            leaves = [cmpeq_leaf(lf) for lf in mask_leaves(mterm)]
+            leaves = [leaf_info(st, lf) for lf in mask_leaves(mterm)]
             if any(lf is None for lf in leaves):
                 det_m = f"mask {mterm} is not an or-tree of cmpeq(splat(needle), load(chunk))"
             else:
@@ -355,7 +425,8 @@ def check_search_post(I, inst, results, mode, ret_kind, index_base=None):
             first = not bad
             if bad:
                 det_f = f"bytes {'before' if mode == 'fwd' else 'after'} {pn} not all examined: " + '; '.join(bad)
-        I.ob('POST-MATCH', fr, loc, f'{tag}: Some(p) => byte at p is a needle', matched, det_m)
+        if match_check:
+            I.ob('POST-MATCH', fr, loc, f'{tag}: Some(p) => byte at p is a needle', matched, det_m)
         I.ob('POST-FIRST' if mode == 'fwd' else 'POST-LAST', fr, loc,
              f"{tag}: Some(p) => no needle {'before' if mode == 'fwd' else 'after'} p", first, det_f)
 
